@@ -766,7 +766,26 @@ func (g *c03vGen) buildMem(op c03vOp, full bool) {
 				c.feat["saddr"] = true
 			}
 		} else {
-			f["saddr"] = 0
+			// gfx803 code leaves OFFSET and SADDR zero; the GCN3 ALU also accepts the GFX9 forms
+			// (signed 13-bit offset in any segment, scalar base unless SADDR is 0x7F or 0)
+			f["saddr"] = uint32(rng.Pick(0, 0, 0x7f))
+			if rng.Chance(50) {
+				off = int64(rng.Pick(4, -4, 1, -1, 4095, -4096, 8, rng.Range(-4096, 4095)))
+				f["offset"] = uint32(off)&0x1fff | uint32(rng.Pick(0, 0, 2))<<14
+				c.feat["gcn3offset"] = true
+				if off < 0 {
+					c.feat["negoffset"] = true
+				}
+			}
+			if rng.Chance(30) {
+				useS = true
+				s := 2 * rng.Range(1, 49)
+				sbase = []uint64{0x100000, 0x7fff00000000, 0xfffff000}[rng.Intn(3)]
+				g.setS(s, uint32(sbase))
+				g.setS(s+1, uint32(sbase>>32))
+				f["saddr"] = uint32(s)
+				c.feat["saddr"] = true
+			}
 		}
 		hi := uint32(rng.Pick(0, 0, 0x7fff, 1))
 		for k, l := range lanes {
